@@ -639,7 +639,7 @@ func oneRun(id int, workload string, seed uint64, nstmts int) runOut {
 	kvql.EnableFieldCache = ro.Cache
 	kvql.DefaultErrorPadding = []int{7, 7, 0, 3}[r.intn(4)]
 
-	shared := workload == "readonly" || workload == "errors" || workload == "mixed"
+	shared := workload == "readonly" || workload == "errors" || workload == "mixed" || workload == "sametext"
 	var init [][2]string
 	if shared {
 		init = readonlyStore()
@@ -647,8 +647,43 @@ func oneRun(id int, workload string, seed uint64, nstmts int) runOut {
 		init = writersStore(n)
 	}
 	lists := make([][]stmt, n)
+	var common []stmt
+	if workload == "sametext" {
+		// ONE list of statement texts for the whole run (aggregates over several groups, ORDER BY +
+		// LIMIT, field names, failing statements): every goroutine runs these very texts, goroutines
+		// 2j and 2j+1 in the same order (the same text in flight twice at the same moment), the
+		// pairs rotated against each other (the same text in flight at different stages)
+		cr := newRng(seed*1000003 + 5)
+		k := nstmts/2 + cr.intn(nstmts/2+1)
+		for i := 0; i < k; i++ {
+			var q string
+			switch cr.intn(6) {
+			case 0:
+				q = genError(cr)
+			case 1, 2:
+				q = "select substr(key, 0, " + pick(cr, []string{"1", "2", "3"}) + ") as p, " + pick(cr, roAggr) + ", count(1) as c, sum(strlen(value)) / count(1) as m where " + pick(cr, roFilters) + " group by p" + pick(cr, []string{"", " order by m desc, p", " order by c, p desc limit 1, 8", " limit 2, 5"})
+			default:
+				q = genReadonly(cr)
+			}
+			common = append(common, stmt{Q: q, Batch: cr.chance(1, 2)})
+		}
+	}
 	for g := 0; g < n; g++ {
 		gr := newRng(seed*1000003 + uint64(g)*7919 + 13)
+		if workload == "sametext" {
+			rot := (g / 2) % len(common)
+			for rep := 0; rep < 2; rep++ {
+				for i := range common {
+					st := common[(i+rot)%len(common)]
+					if rep == 1 {
+						st.Batch = !st.Batch
+					}
+					lists[g] = append(lists[g], st)
+					ro.Stmts++
+				}
+			}
+			continue
+		}
 		k := nstmts/2 + gr.intn(nstmts/2+1)
 		for i := 0; i < k; i++ {
 			var q string
